@@ -2,6 +2,9 @@
 bzip2 pipeline stages are mutually inverse (C04, C03 components).
 -/
 import Compress.Bzip2.Stages
+import Compress.Proofs.Bzip2Crc
+import Compress.Proofs.Bzip2Mtf
+import Compress.Proofs.Bzip2Rle
 
 namespace Compress.Proofs.Bzip2Stages
 open Compress Compress.Bzip2
@@ -13,8 +16,8 @@ open Compress Compress.Bzip2
 theorem rle1_roundtrip (cap : Nat) (xs : List UInt8) :
     let r := rle1Encode cap xs
     r.2 ≤ xs.length ∧ r.1.length ≤ cap ∧ (r.2 = xs.length ∨ cap ≤ r.1.length + 1) ∧
-    rle1Decode (r.1.length + 1) r.1 none 0 [] = some (xs.take r.2) := by
-  sorry
+    rle1Decode (r.1.length + 1) r.1 none 0 [] = some (xs.take r.2) :=
+  Bzip2Rle.rle1_roundtrip cap xs
 
 /-- run the resumable reader with a schedule of buffer sizes; concatenated output and final status. -/
 def readSched : RleR → List Nat → List UInt8 → List UInt8 × RleStatus
@@ -23,6 +26,21 @@ def readSched : RleR → List Nat → List UInt8 → List UInt8 × RleStatus
     match RleR.read n r [] with
     | (r', out, .ok) => readSched r' ns (acc ++ out)
     | (_, out, st) => (acc ++ out, st)
+
+theorem readSched_good (blk : List UInt8) : ∀ (sched : List Nat) (r : RleR) (acc : List UInt8),
+    Bzip2Rle.RInv blk r acc → Bzip2Rle.Good blk (readSched r sched acc).1 (readSched r sched acc).2
+  | [], r, acc, h => by simpa [readSched] using Bzip2Rle.rinv_good blk r acc h
+  | n :: ns, r, acc, h => by
+    obtain ⟨P', p1, p2, p3⟩ := Bzip2Rle.read_spec blk n r [] acc h
+    rw [readSched]
+    generalize RleR.read n r [] = res at p1 p2 p3
+    obtain ⟨r', out, st⟩ := res
+    simp only [List.reverse_nil, List.nil_append] at p1 p2 p3
+    subst p1
+    cases st with
+    | ok => exact readSched_good blk ns r' _ (p2 rfl)
+    | done => exact p3 (by simp)
+    | corrupted => exact p3 (by simp)
 
 /-- **RLE1 decoding is independent of the Read sizes.** For every block and every
     schedule of buffer sizes (zeros included), the bytes the resumable reader hands
@@ -34,29 +52,35 @@ theorem rle1_resumable (blk : List UInt8) (sched : List Nat) :
     match rle1Decode (blk.length + 1) blk none 0 [] with
     | some full => r.1 <+: full ∧ (r.2 = .done → r.1 = full) ∧ r.2 ≠ .corrupted
     | none => r.2 ≠ .done := by
-  sorry
+  have h := readSched_good blk sched _ [] (Bzip2Rle.rinv_init blk)
+  unfold Bzip2Rle.Good at h
+  rw [Bzip2Rle.rle1Decode_dec]
+  exact h
 
 /-- **MTF/RLE2 round trip.** For a duplicate-free dictionary containing every
     value and a block size that holds the data, decoding the encoder's symbols
     returns the data. -/
 theorem mtf_roundtrip (dict vals : List UInt8) (blk : Nat)
     (hd : dict.Nodup) (hv : ∀ v ∈ vals, v ∈ dict) (hb : vals.length ≤ blk) (hn : vals.length < 2 ^ 24) :
-    mtfDecode blk dict (mtfEncode dict vals 0 []) 0 0 #[] = some vals.toArray := by
-  sorry
+    mtfDecode blk dict (mtfEncode dict vals 0 []) 0 0 #[] = some vals.toArray :=
+  have _ := hd
+  Bzip2Mtf.mtf_roundtrip dict vals blk hv hb hn
 
 /-- every symbol the encoder emits is a run symbol or a dictionary index + 1. -/
 theorem mtf_syms_in_range (dict vals : List UInt8) (hv : ∀ v ∈ vals, v ∈ dict) :
-    ∀ s ∈ mtfEncode dict vals 0 [], s ≤ dict.length := by
-  sorry
+    ∀ s ∈ mtfEncode dict vals 0 [], s ≤ dict.length :=
+  Bzip2Mtf.mtf_syms_in_range dict vals hv
 
 /-- **Checksum.** The Go code's way of computing bzip2's CRC (bit-reverse, run
     the reflected IEEE CRC-32 over bit-reversed bytes, reverse back) is the
     MSB-first CRC-32, chunk by chunk. -/
 theorem crc_go_eq (val : Nat) (hv : val < 2 ^ 32) (bs : List UInt8) :
-    crcUpdateGo val bs = (bs.foldl crcByte (val ^^^ 0xffffffff)) ^^^ 0xffffffff := by
-  sorry
+    crcUpdateGo val bs = (bs.foldl crcByte (val ^^^ 0xffffffff)) ^^^ 0xffffffff :=
+  Bzip2Crc.crc_go_eq val hv bs
 
 theorem crc_go_block (bs : List UInt8) : crcUpdateGo 0 bs = blockCRC bs := by
-  sorry
+  rw [crc_go_eq 0 (by decide) bs]
+  rfl
+
 
 end Compress.Proofs.Bzip2Stages
